@@ -296,6 +296,11 @@ def r8_http_client_id_check(ctx):
         is_ne = (c.name() or "").endswith("::ne")
         good_t = None
         for sb, arms, other in flow.switch_on(b, c.dest["l"]):
+            # the bool that is tested must be this comparison's result and nothing else (no `||` / per-kind leniency
+            # merged into it)
+            lv_d = tr.origins(b, b.blocks[sb]["term"]["discr"])
+            pure = bool(lv_d) and all(l.kind == "call" and l.detail["bb"] == c.bb and l.where == b.path for l in lv_d)
+            R.check(pure, "C03.R8", "http:id-test-is-plain-equality", "the tested condition is exactly `response id == request id`", "the condition HttpClient::request tests is not just `response id == request id` (it also comes from %s): a response whose id is not the one sent (another kind, another spelling) completes the call" % sorted({flow.leaf_str(l)[:60] for l in lv_d if not (l.kind == "call" and l.detail["bb"] == c.bb)}), where(c))
             good_t = arms.get("0") if is_ne else arms.get("1")
         for bi, st in oks:
             R.check(good_t is not None and b.dominates(good_t, bi), "C03.R8", "http:ok-only-when-ids-equal", "Ok(result) is returned only on the ids-equal branch", "HttpClient::request returns Ok(result) without the response id having been found equal to the request id", "%s:%d" % (b.file, st["sp"][0]))
@@ -304,6 +309,28 @@ def r8_http_client_id_check(ctx):
             lv = tr.origins(b, a)
             sides.append("rp" if any(l.kind == "call" and re.search(r"ResponseSuccess<.*>::try_from$|TryFrom.*::try_from$|run_future_until_timeout$|RpcServiceT::call$", l.detail["callee"] or "") for l in lv) else ("req" if any(l.kind == "call" and re.search(r"RequestIdManager::next_request_id$", l.detail["callee"] or "") for l in lv) else "?"))
         R.check(sorted(sides) == ["req", "rp"], "C03.R8", "http:compares-the-right-ids", "the comparison is between the parsed response's id and the id allocated for this call", "the id comparison in HttpClient::request is between %s" % sides, where(c))
+
+
+def r9_gone_caller_is_not_a_connection_error(ctx):
+    """a response whose caller has gone away (timeout, dropped future) is discarded quietly: in process_single_response /
+    process_batch_response the outcome of handing the response to the caller's oneshot never leads to an Err return - an
+    Err from these functions makes the read task stop and fails *every other* pending call with this one's id error"""
+    F, R = ctx.F, ctx.R
+    n = 0
+    for pat in (PSR, r"^jsonrpsee_core::client::async_client::helpers::process_batch_response$"):
+        b = F.one(pat)
+        R.fn(b)
+        errs = [bi for bi, blk in enumerate(b.blocks) if bi in b.reachable and not blk.get("cleanup") for st in blk["st"]
+                if st["s"] == "assign" and st["rv"]["k"] == "agg" and (st["rv"].get("adt") or "").endswith("InvalidRequestId")]
+        for c in b.calls_to(r"oneshot::Sender::<.*>::send$"):
+            n += 1
+            bad = False
+            for sb, arms, other in flow.switch_on(b, c.dest["l"]):
+                et = arms.get("1")
+                if et is not None and any(b.dominates(et, e) for e in errs):
+                    bad = True
+            R.check(not bad, "C03.R9", "%s:send#%d" % (short(b.path).split("::")[-1], sorted(x.bb for x in b.calls_to(r"oneshot::Sender::<.*>::send$")).index(c.bb)), "a caller that went away does not turn into an InvalidRequestId error", "%s returns an InvalidRequestId error when the caller's oneshot is closed: a late reply to an abandoned call stops the read task, and every other pending call completes with that error instead of its own response" % short(b.path), where(c))
+    R.floor("C03.R9", n, 5, "oneshot completions in the response path")
 
 
 def rarr_every_element(ctx):
@@ -333,7 +360,14 @@ def _borrowed(modname, fname):
 BORROWED = [_borrowed("c15", n) for n in ("r3_field_tables", "r4_duplicate_guards", "r5_acceptance_table", "r8_into_owned_is_fieldwise", "r9_client_tries_response_first")]
 
 
-RULES = [r1_id_and_wire_agree, r2_key_discipline, r3_insert_before_send, r4_completion_consumes, r5_allocator, r6_batch_slots, r7_ids_not_ordered, r8_http_client_id_check, rarr_every_element, rcancel_receive_is_cancel_safe] + BORROWED
+
+def rkeys_manager_keys_not_derived(ctx):
+    """ids are matched exactly"""
+    from .common import manager_keys_not_derived
+    manager_keys_not_derived(ctx, "C03.KEYS")
+
+
+RULES = [r1_id_and_wire_agree, r2_key_discipline, r3_insert_before_send, r4_completion_consumes, r5_allocator, r6_batch_slots, r7_ids_not_ordered, r8_http_client_id_check, r9_gone_caller_is_not_a_connection_error, rarr_every_element, rcancel_receive_is_cancel_safe, rkeys_manager_keys_not_derived] + BORROWED
 
 LEVEL_TEXT = (
     "Structural necessary conditions of response demultiplexing decided from the type-checked program: the recorded id "
